@@ -3,13 +3,19 @@ package c16
 import (
 	"encoding/json"
 	"fmt"
+	"go/ast"
+	"go/parser"
+	"go/token"
 	"os"
 	"path/filepath"
 	"regexp"
+	"runtime"
 	"sort"
+	"strconv"
 	"strings"
 	"sync"
 	"testing"
+	"time"
 
 	"golang.org/x/tools/go/analysis"
 	"honnef.co/go/tools/lintcmd/runner"
@@ -19,7 +25,50 @@ import (
 	"verif/harness/internal/srcmut"
 )
 
-func TestMain(m *testing.M) { ev.Main(m) }
+func TestMain(m *testing.M) {
+	// 16 shards run side by side; the runner, the type checker and the child go
+	// commands are all parallel on their own. Without a cap the shards fight
+	// for the cores (measured: 5x wall time, mostly system time).
+	if n := ev.NShards(); n > 1 {
+		p := max(2, 2*runtime.NumCPU()/n)
+		runtime.GOMAXPROCS(p)
+		os.Setenv("GOMAXPROCS", fmt.Sprint(p))
+	}
+	ev.Main(m)
+}
+
+var procStart = time.Now()
+
+// pastShare reports whether this process has used more than the given share of
+// the soft time budget (VERIF_DEADLINE). The rapid properties of this package
+// run one after the other; each stops drawing new cases at its share so that
+// the later ones are not starved (TestMutated: 45%, TestShapes: the rest).
+func pastShare(frac float64) bool {
+	d := os.Getenv("VERIF_DEADLINE")
+	if d == "" {
+		return false
+	}
+	n, err := strconv.ParseInt(d, 10, 64)
+	if err != nil {
+		return false
+	}
+	budget := time.Unix(n, 0).Sub(procStart)
+	if budget <= 0 {
+		return true
+	}
+	if time.Since(procStart) > time.Duration(frac*float64(budget)) {
+		ev.Count("cases_skipped_time_share", 1)
+		return true
+	}
+	return false
+}
+
+// cacheDir is the staticcheck cache shared by the shards of one run (the driver removes VERIF_OUT afterwards).
+func cacheDir() string {
+	d := filepath.Join(ev.OutDir(), "c16-rncache")
+	os.MkdirAll(d, 0o755)
+	return d
+}
 
 const rule = "two kinds of cases. (a) position/apply clause: a package = a check testdata package of the repository (thorough: also the repository's own packages), analysed unchanged and as srcmut variants (comments, line breaks, redundant parentheses, renamed imports, CRLF, leading lines; 1 mutation quick, up to 20 thorough) with all analyzers incl. quickfix through the real runner; every diagnostic and every suggested fix is validated (position/end exist, edits in bounds and disjoint, patched file parses, patched package type-checks after import adjustment); non-trivial = diagnostic carrying >=1 fix on a MUTATED variant, distinct by (check, hash of the mutated source). (b) behavioural clause: an instance = an executable function instantiating the trigger shape of one fix-emitting S/QF check, holes filled with drawn typed operands (variables, literals, arithmetic, tracing calls tr/trs/trb, multi-line operands, operands of lower precedence, aliased imports, shadowed package names); every fix of every diagnostic in it is applied separately, original and fixed functions are compiled into one binary and run on an input grid; results, panic outcome, trace, pointees and globals must be equal; non-trivial = instance with a fix applied whose holes contain a tracing call or a multi-line or lower-precedence operand, distinct by (check, source hash)"
 
@@ -161,8 +210,82 @@ func baseFiles(ps *pkgSrc) map[string]string {
 	return out
 }
 
-// knownSig classifies a clause-(a) violation for the known-findings mechanism.
-func knownSig(check, kind string) string { return strings.ToLower(check) + "-fix-" + kind }
+var reDoubleNot = regexp.MustCompile(`!\s*!\s*\(`)
+
+var reShadowed = regexp.MustCompile(`(\w+)\.\w+ undefined \(type `)
+
+// knownSig classifies a violation for the known-findings mechanism: one
+// signature per root cause where the message identifies it, else one per
+// (check, violated clause).
+func knownSig(check, kind, msg string) string {
+	switch {
+	case kind == "typecheck" && reShadowed.MatchString(msg) && stdQualifiers[reShadowed.FindStringSubmatch(msg)[1]] != "":
+		return "fix-names-shadowed-package"
+	case check == "QF1012" && kind == "typecheck" && strings.Contains(msg, "cannot take address of"):
+		return "qf1012-address-of-unaddressable-receiver"
+	case check == "S1002" && (kind == "typecheck" || kind == "behaviour"):
+		return "s1002-unparenthesised-operand"
+	case check == "QF1001" && (kind == "typecheck" || kind == "behaviour") && strings.Contains(msg, "& simplify\""):
+		return "simplify-parentheses-changes-structure"
+	case check == "QF1005" && kind == "behaviour":
+		if powIsOperand(msg) {
+			return "replacement-not-parenthesised-for-context"
+		}
+		return "simplify-parentheses-changes-structure"
+	case check == "S1025" && kind == "behaviour" && strings.Contains(msg, "Replace with call to String method"):
+		return "s1025-stringer-that-is-also-error"
+	case check == "S1025" && (kind == "behaviour" || kind == "typecheck"):
+		return "replacement-not-parenthesised-for-context"
+	case check == "QF1001" && kind == "behaviour" && reDoubleNot.MatchString(msg):
+		return "qf1001-negation-under-unary-operator"
+	case (check == "QF1003" || check == "QF1002") && kind == "typecheck" && strings.Contains(msg, "duplicate case"):
+		return "tagged-switch-duplicate-case"
+	case check == "SA1006" && kind == "parse":
+		return "sa1006-parenthesised-callee"
+	case check == "S1034" && kind == "typecheck":
+		return "s1034-assignment-to-switched-variable"
+	case check == "S1018" && kind == "behaviour":
+		return "s1018-count-or-offset-out-of-range"
+	case check == "S1001" && kind == "behaviour":
+		return "s1001-destination-shorter-than-source"
+	case check == "S1033" && kind == "behaviour":
+		return "s1033-key-evaluated-once"
+	case check == "S1030" && kind == "behaviour":
+		return "s1030-bytes-differs-from-copy"
+	}
+	return strings.ToLower(check) + "-fix-" + kind
+}
+
+// powIsOperand reports whether the original source quoted in a QF1005 message
+// uses a math.Pow call as an operand of a binary expression (as opposed to a
+// whole statement operand).
+func powIsOperand(msg string) bool {
+	i := strings.Index(msg, "original:\n")
+	j := strings.Index(msg, "patched:\n")
+	if i < 0 || j < i {
+		return false
+	}
+	f, err := parser.ParseFile(token.NewFileSet(), "x.go", msg[i+len("original:\n"):j], parser.SkipObjectResolution)
+	if err != nil {
+		return false
+	}
+	found := false
+	ast.Inspect(f, func(n ast.Node) bool {
+		be, ok := n.(*ast.BinaryExpr)
+		if !ok {
+			return true
+		}
+		for _, op := range []ast.Expr{be.X, be.Y} {
+			if call, ok := op.(*ast.CallExpr); ok {
+				if sel, ok := call.Fun.(*ast.SelectorExpr); ok && sel.Sel.Name == "Pow" {
+					found = true
+				}
+			}
+		}
+		return true
+	})
+	return found
+}
 
 // validateResult checks every diagnostic and fix of one analysed package.
 func validateResult(r runner.Result, o evalOpts) ([]finding, error) {
@@ -186,7 +309,7 @@ func validateResult(r runner.Result, o evalOpts) ([]finding, error) {
 	}
 	var out []finding
 	add := func(check, kind, msg string) {
-		out = append(out, finding{check: check, kind: kind, sig: knownSig(check, kind), msg: fmt.Sprintf("%s %s: %s", o.label, r.Package.PkgPath, msg), files: baseFiles(ps)})
+		out = append(out, finding{check: check, kind: kind, sig: knownSig(check, kind, msg), msg: fmt.Sprintf("%s %s: %s", o.label, r.Package.PkgPath, msg), files: baseFiles(ps)})
 	}
 	cgo := false
 	for _, n := range ps.order {
@@ -335,7 +458,7 @@ func reportFindings(fs []finding) (msgs []string, first *finding) {
 // runRepoDirs analyses unchanged packages of the repository.
 func runRepoDirs(patterns []string, o evalOpts) ([]finding, error) {
 	var out []finding
-	err := rn.Run(rn.Options{Dir: "/repo"}, analyzers(), patterns, func(res []runner.Result) error {
+	err := rn.Run(rn.Options{Dir: "/repo", CacheDir: cacheDir()}, analyzers(), patterns, func(res []runner.Result) error {
 		for _, r := range res {
 			if !r.Initial {
 				continue
@@ -428,11 +551,12 @@ func loadTestdataPkg(dir string) []srcmut.File {
 	return out
 }
 
-// runModule writes the packages into a fresh module (one directory each) and validates all results.
-func runModule(pkgs []map[string]string, o evalOpts, only []*analysis.Analyzer) ([][]finding, error) {
+// withModule writes the packages into a fresh module (one directory each), runs
+// the analyzers and hands every loaded package result to fn.
+func withModule(pkgs []map[string]string, only []*analysis.Analyzer, fn func(idx int, r runner.Result) error) error {
 	dir, err := os.MkdirTemp("", "c16-")
 	if err != nil {
-		return nil, err
+		return err
 	}
 	defer os.RemoveAll(dir)
 	os.WriteFile(filepath.Join(dir, "go.mod"), []byte("module m\n\ngo 1.26.0\n"), 0o644)
@@ -447,8 +571,7 @@ func runModule(pkgs []map[string]string, o evalOpts, only []*analysis.Analyzer) 
 	if as == nil {
 		as = analyzers()
 	}
-	out := make([][]finding, len(pkgs))
-	err = rn.Run(rn.Options{Dir: dir}, as, []string{"./..."}, func(res []runner.Result) error {
+	return rn.Run(rn.Options{Dir: dir, CacheDir: cacheDir()}, as, []string{"./..."}, func(res []runner.Result) error {
 		for _, r := range res {
 			if !r.Initial {
 				continue
@@ -461,15 +584,77 @@ func runModule(pkgs []map[string]string, o evalOpts, only []*analysis.Analyzer) 
 				ev.Count("packages_failed_to_load", 1)
 				continue
 			}
-			if o.mutated {
-				ev.Count("packages_analysed_mutated", 1)
-			}
-			fs, err := validateResult(r, o)
-			if err != nil {
+			if err := fn(idx, r); err != nil {
 				return err
 			}
-			out[idx] = fs
 		}
+		return nil
+	})
+}
+
+// runModule validates all diagnostics and fixes of the packages.
+func runModule(pkgs []map[string]string, o evalOpts, only []*analysis.Analyzer) ([][]finding, error) {
+	out := make([][]finding, len(pkgs))
+	err := withModule(pkgs, only, func(idx int, r runner.Result) error {
+		if o.mutated {
+			ev.Count("packages_analysed_mutated", 1)
+		}
+		fs, err := validateResult(r, o)
+		if err != nil {
+			return err
+		}
+		out[idx] = fs
+		return nil
+	})
+	return out, err
+}
+
+type byteRange struct{ s, e int }
+
+// hotRanges analyses the unchanged packages and returns, per package and file
+// (base name), the byte ranges of the lines touched by diagnostics that carry
+// fixes: mutations are steered there.
+func hotRanges(pkgs []map[string]string) ([]map[string][]byteRange, error) {
+	out := make([]map[string][]byteRange, len(pkgs))
+	err := withModule(pkgs, nil, func(idx int, r runner.Result) error {
+		data, err := r.Load()
+		if err != nil {
+			return err
+		}
+		m := map[string][]byteRange{}
+		for _, d := range data.Diagnostics {
+			if len(d.SuggestedFixes) == 0 {
+				continue
+			}
+			base := filepath.Base(d.Position.Filename)
+			src, ok := pkgs[idx][base]
+			if !ok {
+				continue
+			}
+			lo, hi := d.Position.Line, d.Position.Line
+			upd := func(p token.Position) {
+				if p.Line > 0 && filepath.Base(p.Filename) == base {
+					lo, hi = min(lo, p.Line), max(hi, p.Line)
+				}
+			}
+			upd(d.End)
+			for _, f := range d.SuggestedFixes {
+				for _, e := range f.TextEdits {
+					upd(e.Position)
+					upd(e.End)
+				}
+			}
+			ls := lineStarts([]byte(src))
+			if lo < 1 || hi > len(ls) {
+				continue
+			}
+			end := len(src)
+			if hi < len(ls) {
+				end = ls[hi]
+			}
+			m[base] = append(m[base], byteRange{ls[lo-1], end})
+		}
+		out[idx] = m
 		return nil
 	})
 	return out, err
@@ -483,32 +668,99 @@ func TestMutated(t *testing.T) {
 		ev.Infra("only %d testdata packages found", len(dirs))
 		return
 	}
-	batch := ev.EnvInt("C16_BATCH", 5, 6)
-	maxMut := ev.EnvInt("C16_MUTATIONS", 1, 20)
+	var fixDirs []string
+	emit := map[string]bool{}
+	for _, c := range fixEmitters("simple", "quickfix", "staticcheck", "stylecheck") {
+		emit[strings.ToLower(c)] = true
+	}
+	for _, d := range dirs {
+		if parts := strings.Split(d, "/"); len(parts) > 2 && emit[parts[2]] {
+			fixDirs = append(fixDirs, d)
+		}
+	}
+	if len(fixDirs) < 30 {
+		ev.Infra("only %d testdata packages of fix-emitting checks found", len(fixDirs))
+		return
+	}
+	batch := ev.EnvInt("C16_BATCH", 4, 6)
+	maxMut := ev.EnvInt("C16_MUTATIONS", 3, 20)
 	ev.Assume("srcmut variants are equivalent to their originals (verified by srcmut's own test: equal go/types fingerprints); a variant that no longer type-checks while the original does is discarded and counted as gen_invalid")
 	ev.Assume("type-checking of patched packages uses go/types with the source importer; a package whose ORIGINAL does not type-check that way (sibling testdata imports, vendored paths, deliberate errors) is inconclusive for the type-check clause")
 	ev.Check(t, "TestMutated", func(rt *rapid.T) {
-		var pkgs []mutPkg
-		for len(pkgs) < batch {
-			d := dirs[rapid.IntRange(0, len(dirs)-1).Draw(rt, "dir")]
+		if pastShare(0.45) {
+			return
+		}
+		var dirsDrawn []string
+		var loaded [][]srcmut.File
+		var plain []map[string]string
+		for len(dirsDrawn) < batch {
+			// two of three packages come from the checks that emit fixes
+			pool := dirs
+			if uniform(rt, 3, "pool") != 0 {
+				pool = fixDirs
+			}
+			d := pool[uniform(rt, len(pool), "dir")]
 			files := loadTestdataPkg(d)
 			if len(files) == 0 {
 				continue
 			}
+			dirsDrawn = append(dirsDrawn, d)
+			loaded = append(loaded, files)
+			m := map[string]string{}
+			for _, f := range files {
+				m[f.Name] = string(f.Src)
+			}
+			plain = append(plain, m)
+		}
+		// phase 1: where do the unchanged packages get fixes? (harness-side knowledge used to aim the mutations)
+		{
+			var unchanged []mutPkg
+			for i, d := range dirsDrawn {
+				unchanged = append(unchanged, mutPkg{Dir: d, Files: plain[i]})
+			}
+			js, _ := json.Marshal(unchanged)
+			ev.Begin("TestMutated", "json", js)
+		}
+		hot, err := hotRanges(plain)
+		if err != nil {
+			ev.Count("infra_skipped", 1)
+			ev.Extra("last_infra", err.Error())
+			rt.Skip(err.Error())
+		}
+		var pkgs []mutPkg
+		for pi, d := range dirsDrawn {
+			files := loaded[pi]
 			n := 1
 			if maxMut > 1 {
-				n = rapid.IntRange(1, maxMut).Draw(rt, "nmut")
+				n = 1 + uniform(rt, maxMut, "nmut")
 			}
 			var muts []srcmut.Mutation
 			crlf := false
-			pick := func(k int) int { return rapid.IntRange(0, k-1).Draw(rt, "pick") }
+			pick := func(k int) int { return uniform(rt, k, "pick") }
 			for i := 0; i < n; i++ {
-				kind := mutKinds[rapid.IntRange(0, len(mutKinds)-1).Draw(rt, "kind")]
+				kind := mutKinds[uniform(rt, len(mutKinds), "kind")]
+				if kind == srcmut.Paren && strings.Contains(d, "/sa1006/") && !includeKnown() {
+					// recorded finding sa1006-parenthesised-callee: (fmt.Printf)(s) is rewritten to (fmt.Printf(s)
+					ev.Count("excluded_by_known_finding_sa1006_parenthesised_callee", 1)
+					kind = srcmut.CommentExpr
+				}
 				if kind == srcmut.CRLF {
 					crlf = true // line endings are converted last: a CRLF file is not rewritten further
 					continue
 				}
-				out, m, err := srcmut.Apply(files, kind, pick, lockedImporter{})
+				var focus srcmut.Focus
+				if hr := hot[pi]; len(hr) > 0 && uniform(rt, 4, "aim") != 0 {
+					focus = func(file string, s, e int) bool {
+						for _, r := range hr[file] {
+							if s < r.e && e >= r.s {
+								return true
+							}
+						}
+						return false
+					}
+					ev.Count("mutation_aimed_at_fix", 1)
+				}
+				out, m, err := srcmut.ApplyAt(files, kind, pick, lockedImporter{}, focus)
 				if err != nil {
 					ev.Count("mutation_not_applicable", 1)
 					continue
@@ -516,6 +768,22 @@ func TestMutated(t *testing.T) {
 				files = out
 				muts = append(muts, *m)
 				ev.Count("mutation_"+string(kind), 1)
+				// keep the aimed-at ranges in step with the rewritten file
+				if m.Inserted == nil {
+					hot[pi] = nil
+				} else if hr := hot[pi][m.File]; len(hr) > 0 {
+					for i := len(m.Inserted) - 1; i >= 0; i-- {
+						o, l := m.Inserted[i][0], m.Inserted[i][1]
+						for j := range hr {
+							if hr[j].s >= o {
+								hr[j].s += l
+								hr[j].e += l
+							} else if hr[j].e > o {
+								hr[j].e += l
+							}
+						}
+					}
+				}
 			}
 			if crlf {
 				if out, m, err := srcmut.Apply(files, srcmut.CRLF, pick, nil); err == nil {
@@ -611,9 +879,6 @@ func replayOne(t *testing.T, f, test string, rp *Replay, raw []byte) {
 }
 
 func TestCorpus(t *testing.T) {
-	if os.Getenv("VERIF_SECONDARY") != "" {
-		return
-	}
 	defer flushStats()
 	files, _ := filepath.Glob(filepath.Join(os.Getenv("VERIF_ROOT"), "corpus", "C16", "*.json"))
 	sort.Strings(files)
